@@ -135,3 +135,15 @@ CASES += [
     {"name": "operator count taken from a missing system-bath interaction (the repaired defect)", "kind": "mutant", "rule": "C01-H", "edits": [
         (R + "redfieldtensor.py", "        Nb = Km.shape[0]\n        \n        RR = numpy.zeros((Na, Na, Na, Na), dtype=numpy.complex128)", "        Nb = self.SystemBathInteraction.N\n        \n        RR = numpy.zeros((Na, Na, Na, Na), dtype=numpy.complex128)", 1)]},
 ]
+
+CASES += [
+    {"name": "Redfield initialize() leaves the secular mark (the repaired defect)", "kind": "mutant", "rule": "C01-I", "edits": [
+        ("quantarhei/qm/liouvillespace/redfieldtensor.py", "        # the data calculated below are not secular, whatever was done\n        # to the data they replace\n        self.is_secular = False\n", "", 1)]},
+    {"name": "Foerster initialize() leaves the secular mark (the repaired defect)", "kind": "mutant", "rule": "C01-I", "edits": [
+        ("quantarhei/qm/liouvillespace/foerstertensor.py", "        # the data calculated below are not secular, whatever was done\n        # to the data they replace\n        self.is_secular = False\n", "", 1)]},
+    {"name": "secular mark cleared by the implementation hook instead of initialize()", "kind": "twin", "edits": [
+        ("quantarhei/qm/liouvillespace/redfieldtensor.py", "        # the data calculated below are not secular, whatever was done\n        # to the data they replace\n        self.is_secular = False\n", "", 1),
+        ("quantarhei/qm/liouvillespace/redfieldtensor.py", "        qr.log_detail(\"Reference time-independent Redfield tensor calculation\")\n", "        qr.log_detail(\"Reference time-independent Redfield tensor calculation\")\n        self.is_secular = False\n", 1),
+        ("quantarhei/qm/liouvillespace/tdredfieldtensor.py", "    def _implementation(self, ham, sbi):\n", "    def _implementation(self, ham, sbi):\n        self.is_secular = False\n", 1),
+        ("quantarhei/qm/liouvillespace/lindbladform.py", "    def _implementation(self, ham, sbi):\n", "    def _implementation(self, ham, sbi):\n        self.is_secular = False\n", 1)]},
+]
